@@ -74,6 +74,10 @@ class Wsdl:
         raise KeyError(name)
 
 
+def xesc(v):
+    return v.replace("&", "&amp;").replace("<", "&lt;").replace('"', "&quot;")
+
+
 class WsdlGen:
     def __init__(self, rng, salt, hostile=False):
         self.rng = rng
@@ -112,6 +116,9 @@ class WsdlGen:
         types_ns = tns if rng.random() < 0.6 else f"urn:wsdlgen:{self.salt}:types"
         w = Wsdl(tns, types_ns, [], [], f"http://wsdlgen.test/{self.salt}/endpoint", self.name("Port"), self.name("Binding"), self.name("Service"))
         w.imported_schema = rng.random() < 0.3
+        if self.hostile and rng.random() < 0.1:
+            w.location = f"http://wsdlgen.test/{self.salt}/end\\point?q=\"1\""
+            w.features.add("location-with-quotes-or-backslashes")
         style = rng.choice(["document", "rpc"])
         w.style_on_binding = rng.random() < 0.5
         w.style_override = w.style_on_binding and rng.random() < 0.4
@@ -123,6 +130,9 @@ class WsdlGen:
             if op_style != style:
                 w.features.add("operation-style-overrides-binding-style")
             op = Op(opname, op_style, rng.choice([f"{tns}/{opname}", "", None]), [], [])
+            if self.hostile and rng.random() < 0.15:
+                op.soap_action = rng.choice([f'"{tns}/{opname}"', f"{tns}\\{opname}", f"it's {opname}"])  # (quoted actions are common in the wild)
+                w.features.add("soap-action-with-quotes-or-backslashes")
             if op_style == "document":
                 req = self.element("Req")
                 w.elements.append(req)
@@ -223,7 +233,7 @@ def render(w: Wsdl) -> dict:
     out.append(f'  <binding name="{w.binding}" type="tns:{w.port_type}">\n    <soap:binding transport="{HTTP}"{bstyle}/>')
     for op in w.ops:
         ostyle = "" if w.style_on_binding and op.style == w.binding_style else f' style="{op.style}"'
-        action = "" if op.soap_action is None else f' soapAction="{op.soap_action}"'
+        action = "" if op.soap_action is None else f' soapAction="{xesc(op.soap_action)}"'
         body_ns = f' namespace="{op.body_ns}"' if op.body_ns else ""
         hdr = f'\n        <soap:header message="tns:{op.name}Hdr" part="header" use="literal"/>' if op.header else ""
         out.append(f'    <operation name="{op.name}">\n      <soap:operation{action}{ostyle}/>\n      <input>\n        <soap:body use="literal"{body_ns}/>{hdr}\n      </input>')
@@ -233,7 +243,7 @@ def render(w: Wsdl) -> dict:
             out.append(f'      <fault name="{op.name}Fault">\n        <soap:fault name="{op.name}Fault" use="literal"/>\n      </fault>')
         out.append("    </operation>")
     out.append("  </binding>")
-    out.append(f'  <service name="{w.service}">\n    <port name="{w.service}Port" binding="tns:{w.binding}">\n      <soap:address location="{w.location}"/>\n    </port>\n  </service>\n</definitions>')
+    out.append(f'  <service name="{w.service}">\n    <port name="{w.service}Port" binding="tns:{w.binding}">\n      <soap:address location="{xesc(w.location)}"/>\n    </port>\n  </service>\n</definitions>')
     files["service.wsdl"] = "\n".join(out)
     return files
 
